@@ -1510,8 +1510,7 @@ pub(crate) fn materialize_constraint_kind(model: &mut Model, kind: &ConstraintKi
                             }
                             crate::variables::Var::VarF(interval) => {
                                 if let Val::ValF(f) = val {
-                                    interval.min = *f;
-                                    interval.max = *f;
+                                    interval.fix_to(*f);
                                 }
                             }
                         }
@@ -1527,8 +1526,7 @@ pub(crate) fn materialize_constraint_kind(model: &mut Model, kind: &ConstraintKi
                             }
                             crate::variables::Var::VarF(interval) => {
                                 if let Val::ValF(f) = val {
-                                    interval.min = *f;
-                                    interval.max = *f;
+                                    interval.fix_to(*f);
                                 }
                             }
                         }
